@@ -289,6 +289,12 @@ def cases(tier, seed, spec):
     for r in range(120 if tier == 'quick' else 2000):
         yield {'kind': 'script', 'n': r}
     yield from (dict(c, kind='ctx') for c in gen.ctx_stream(tier, seed, with_wide=False, scale=.5 if tier == 'quick' else .2))
+    # one definition edited, cell by cell, from a table into a twin of it that cheap fingerprints cannot tell
+    # apart (row ints congruent modulo 2**61 - 1; table text of equal length and CRC-32), rendered before and after
+    for t in (False, True):
+        for c in itertools.chain(gen.hash_twins(seed, 10 if tier == 'quick' else 80, tag='C14HASHTWIN'),
+                                 gen.crc_twins(seed, 8 if tier == 'quick' else 60, tag='C14CRCTWIN')):
+            yield dict(c, kind='twin-edit', transposed=t)
     # table texts of more than a million characters (buffers, chunked encoders): 3 000 x 100 and 120 x 2 600
     import random as _r
     rng = _r.Random(f'{seed}/c14bigtext')
@@ -610,8 +616,44 @@ def run_ctx(concepts, case, spec):
         COL.sample({'context_case': case})
 
 
+def run_twin_edit(concepts, case, spec):
+    D, C = concepts.Definition, concepts.Context
+    o, p = list(case['objects']), list(case['properties'])
+    m = len(p)
+    A, B = ([[bool(r >> j & 1) for j in range(m)] for r in rs] for rs in (case['rows'], case['twin_rows']))
+    if case.get('transposed'):
+        o, p = p, o
+        A, B = ([list(col) for col in zip(*t)] for t in (A, B))
+    d = call(D, o, p, A)
+    if d is RAISED:
+        return
+    call(d.tostring), call(str, d), call(d.crc32), call(lambda: (d.shape, d.fill_ratio))
+    back = rng_cells = [(i, j) for i in range(len(o)) for j in range(len(p)) if A[i][j] != B[i][j]]
+    for i, j in rng_cells:
+        call(d.__setitem__, (o[i], p[j]), B[i][j])
+    COL.count('definitions_edited_into_a_twin_of_what_was_rendered_before')
+    fresh = call(D, o, p, B)
+    ctx = call(C, *d)
+    if fresh is RAISED or ctx is RAISED:
+        return
+    for what, f in (('table-string', lambda x: x.tostring()), ('str', str), ('crc32', lambda x: x.crc32()),
+                    ('fill_ratio', lambda x: x.fill_ratio), ('bools', lambda x: [tuple(r) for r in x.bools])):
+        got, want, viactx = call(f, d), call(f, fresh), call(f, ctx)
+        COL.count('twin_edit_agreements_checked')
+        if what == 'str':
+            viactx = got        # str(context) is a different rendering (header + indented table)
+        if got is RAISED or got != want or got != viactx:
+            COL.violation('driver', f'agreement:{what}-of-an-edited-definition-differs-from-a-fresh-one-and-from-its-context',
+                          None if want is RAISED else str(want)[:300], None if got is RAISED else str(got)[:300],
+                          {'cells_edited': len(back)})
+            break
+    COL.nontrivial('twin-edit', case['fam'], bool(case.get('transposed')), tuple(case['rows']))
+
+
 def run_case(concepts, case, spec):
     c13.INFLIGHT.clear()
+    if case['kind'] == 'twin-edit':
+        return run_twin_edit(concepts, case, spec)
     if case['kind'] == 'pair':
         run_pair(concepts, case, spec)
     elif case['kind'] == 'random':
